@@ -18,7 +18,7 @@ def register(w):
         "key": f"{F}::function_call",
         "params": {"function_name": "str", "args": "list"},
         "ensures": ["same(result, ast.Call(ast.Name(function_name), args, []))"],
-        "fresh": "shallow",
+        "fresh": "node",        # a fresh Call node that SHARES the caller's args list
         "properties": ["C01", "C02", "C17", "C19"],
     })
     C.register(w, {
@@ -62,7 +62,7 @@ def register(w):
         "params": {"lam": "py", "new_expr": "py"},
         "raises": {"Exception": "not isinstance(lam, ast.Lambda)"},
         "ensures": ["same(result, ast.Lambda(lam.args, new_expr))"],
-        "fresh": "shallow",
+        "fresh": "node",
         "properties": ["C02"],
     })
     C.register(w, {
